@@ -35,6 +35,11 @@ pub fn split_once_space(s: &Vec<char>) -> (r: Option<(Vec<char>, Vec<char>)>)
     ensures (r is None <==> forall|i: int| 0 <= i < s@.len() ==> s@[i] != ' '),
             r is Some ==> s@ == r->Some_0.0@ + seq![' '] + r->Some_0.1@ && (forall|i: int| 0 <= i < r->Some_0.0@.len() ==> r->Some_0.0@[i] != ' ')
 { unimplemented!() }
+#[verifier::external_body]
+pub fn rsplit_once_space(s: &Vec<char>) -> (r: Option<(Vec<char>, Vec<char>)>)
+    ensures (r is None <==> forall|i: int| 0 <= i < s@.len() ==> s@[i] != ' '),
+            r is Some ==> s@ == r->Some_0.0@ + seq![' '] + r->Some_0.1@ && (forall|i: int| 0 <= i < r->Some_0.1@.len() ==> r->Some_0.1@[i] != ' ')
+{ unimplemented!() }
 // str::trim_start / str::trim: strip leading (and trailing) whitespace
 pub open spec fn trim_start_spec(s: Seq<char>) -> Seq<char> decreases s.len() { if s.len() > 0 && is_ws(s[0]) { trim_start_spec(s.drop_first()) } else { s } }
 pub open spec fn trim_end_spec(s: Seq<char>) -> Seq<char> decreases s.len() { if s.len() > 0 && is_ws(s.last()) { trim_end_spec(s.drop_last()) } else { s } }
@@ -138,8 +143,9 @@ def translate_line_block(src, log):
     rules = [
         Rule("R3", "bail ! $a", "return Err ( VErr )", why="bail! -> return Err"),
         Rule("R3", "if let Some ( ref pb ) = current_function_pb { $$b }", "", why="progress bar dropped"),
-        Rule("R9", "$x . split_whitespace ( ) . collect :: < Vec < _ > > ( ) . join ( \" \" )", "normalize_ws ( & $x )", why="whitespace normalisation (uninterpreted)"),
+        Rule("R9", "$x . split_whitespace ( ) . collect :: < Vec < _ >> ( ) . join ( \" \" )", "normalize_ws ( & $x )", why="whitespace normalisation (uninterpreted)"),
         Rule("R9", "$x . split_once ( ' ' )", "split_once_space ( & $x )", why="str::split_once(' ') with its std contract"),
+        Rule("R9", "$x . rsplit_once ( ' ' )", "rsplit_once_space ( & $x )", why="str::rsplit_once(' ') with its std contract"),
         Rule("R1", "split_string ( args ) ?", "split_string ( & args ) ?", why="&str -> &Vec<char>"),
         Rule("R9", "name . trim_start ( )", "trim_start ( & name )", why="str::trim_start with its std contract"),
         Rule("R1", "is_instruction_deprecated ( $x )", "is_instruction_deprecated ( & $x )", why="&str -> &Vec<char>"),
